@@ -37,6 +37,8 @@ structure ObjOK (clk : Nat) (k : Kernel) (B : Nat) (o : PObj) : Prop where
 structure PInv (clk : Nat) (k : Kernel) (ps : Ps) : Prop where
   boot_nz : ∀ B, ps.bootTime = some B → B ≠ 0
   objs : ∀ o ∈ ps.objs, ∃ B, ps.bootTime = some B ∧ ObjOK clk k B o
+  /-- every entry of process_iter's cache points at an object of that PID -/
+  pmap : ∀ e ∈ ps.pmap, ∃ o, ps.objs[e.2]? = some o ∧ o.pid = e.1
 
 theorem ObjOK.apply {clk : Nat} {k : Kernel} {B : Nat} {o : PObj} (h : ObjOK clk k B o) (e : KEv) :
     ObjOK clk (k.apply e) B o :=
@@ -45,7 +47,7 @@ theorem ObjOK.apply {clk : Nat} {k : Kernel} {B : Nat} {o : PObj} (h : ObjOK clk
 
 theorem PInv.apply {clk : Nat} {k : Kernel} {ps : Ps} (h : PInv clk k ps) (e : KEv) :
     PInv clk (k.apply e) ps :=
-  ⟨h.boot_nz, fun o ho => let ⟨B, hb, hok⟩ := h.objs o ho; ⟨B, hb, hok.apply e⟩⟩
+  ⟨h.boot_nz, fun o ho => let ⟨B, hb, hok⟩ := h.objs o ho; ⟨B, hb, hok.apply e⟩, h.pmap⟩
 
 /-! ### boot time -/
 
@@ -82,12 +84,14 @@ theorem Evolves.trans {a b c : PObj} (h1 : Evolves a b) (h2 : Evolves b c) : Evo
   ⟨h2.pid.trans h1.pid, h2.ghost.trans h1.ghost, h2.ident.trans h1.ident,
    fun h => h2.gone (h1.gone h), fun h => h2.reused (h1.reused h)⟩
 
-/-- what a method call may change in the module state: not the boot time, not the objects -/
+/-- what a method call may change in the module state: not the boot time, not the objects, not
+    process_iter's cache (only `_pids_reused`) -/
 structure PsSame (ps ps' : Ps) : Prop where
   boot : ps'.bootTime = ps.bootTime
   objs : ps'.objs = ps.objs
+  pmap : ps'.pmap = ps.pmap
 
-theorem PsSame.refl (ps : Ps) : PsSame ps ps := ⟨rfl, rfl⟩
+theorem PsSame.refl (ps : Ps) : PsSame ps ps := ⟨rfl, rfl, rfl⟩
 
 /-! ### `is_running()` -/
 
@@ -132,7 +136,7 @@ theorem isRunningO_spec {c : Cfg} (hc : c.BootGood) {k : Kernel} {ps : Ps} {B : 
       · rw [if_pos (by simpa using hid)]
         have hx : x.start ≠ o.ghost := by
           intro e; apply hid; rw [hok.ident_eq, e]
-        refine ⟨⟨rfl, rfl⟩, ⟨rfl, rfl, rfl, fun _ => rfl, fun _ => rfl⟩,
+        refine ⟨⟨rfl, rfl, rfl⟩, ⟨rfl, rfl, rfl, fun _ => rfl, fun _ => rfl⟩,
           ⟨hok.ghost_lt, hok.ident_eq, ?_⟩, ?_, ?_, ?_⟩
         · intro _; simp [Kernel.owner, hf, hx]
         · simp [Kernel.owner, hf, hx]
